@@ -2,6 +2,7 @@ package an
 
 import (
 	"fmt"
+	"go/types"
 	"sort"
 	"strings"
 
@@ -23,6 +24,8 @@ func runC04(w *World) *Result {
 	ProtoRule(w, r, "R-C04-proto", nil)
 	DispatchRule(w, r, "R-C04-dispatch")
 	c04Once(w, r)
+	r.Rule("R-C04-srcorder", "slots evaluated in a fixed order by the driver hold expressions parsed in that order", 12)
+	c04SrcOrder(w, r)
 	for _, role := range []string{"bash", "batch"} {
 		b, err := BuildBackend(w, role)
 		if err != nil {
@@ -184,5 +187,221 @@ func c04Immediate(w *World, b *Backend, r *Result) {
 		default:
 			r.Ok(rule, key, pos, "returns a plain reference/literal; lines are emitted inside the method")
 		}
+	}
+}
+
+// c04SrcOrder: for two expression slots of one node that the driver evaluates in a fixed
+// order, the parser must have parsed the value of the earlier slot first: Go evaluates
+// operands in source order, the parser reads the source left to right, so a value parsed
+// later and evaluated earlier is an operand evaluated out of order (a > b stored as b < a).
+func c04SrcOrder(w *World, r *Result) {
+	rule := "R-C04-srcorder"
+	pf, err := BuildParserFacts(w)
+	if err != nil {
+		r.Bad(rule, "srcorder:facts", "-", err.Error())
+		return
+	}
+	df, err := BuildDriverFacts(w)
+	if err != nil {
+		r.Bad(rule, "srcorder:driver", "-", err.Error())
+		return
+	}
+	// accessor method -> field, per node type
+	accField := map[string]map[string]string{}
+	for name, named := range pf.NodeTypes {
+		accField[name] = map[string]string{}
+		for i := 0; i < named.NumMethods(); i++ {
+			m := named.Method(i)
+			fn := w.Prog.FuncValue(m)
+			if fn == nil || len(fn.Blocks) != 1 {
+				continue
+			}
+			ret, ok := fn.Blocks[0].Instrs[len(fn.Blocks[0].Instrs)-1].(*ssa.Return)
+			if !ok || len(ret.Results) != 1 {
+				continue
+			}
+			switch x := ret.Results[0].(type) {
+			case *ssa.Field:
+				accField[name][m.Name()] = structFieldName(x.X.Type(), x.Field)
+			case *ssa.UnOp:
+				if fa, ok := x.X.(*ssa.FieldAddr); ok {
+					accField[name][m.Name()] = structFieldName(fa.X.Type(), fa.Field)
+				}
+			}
+		}
+	}
+	// driver order of fields per node kind: f1 < f2 when in every trace every eval of f1 precedes every eval of f2
+	before := map[string]map[[2]string]bool{}
+	ppkg := w.Pkgs["parser"].Types
+	for _, d := range df.Fns {
+		if d.Node == "" || len(d.Traces) == 0 {
+			continue
+		}
+		// concrete node types this handler serves (the type itself, or every implementer of an interface)
+		var concrete []string
+		if obj := ppkg.Scope().Lookup(d.Node); obj != nil {
+			if iface, ok := obj.Type().Underlying().(*types.Interface); ok {
+				for name, named := range pf.NodeTypes {
+					if types.Implements(named, iface) || types.Implements(types.NewPointer(named), iface) {
+						concrete = append(concrete, name)
+					}
+				}
+			} else {
+				concrete = []string{d.Node}
+			}
+		}
+		accSeen := map[string]bool{}
+		viol := map[[2]string]bool{}
+		for _, t := range d.Traces {
+			var seq []string
+			for _, e := range t {
+				if !strings.HasPrefix(e, "eval(") {
+					continue
+				}
+				acc := e[5:]
+				if i := strings.IndexAny(acc, ")"); i >= 0 {
+					acc = acc[:i]
+				}
+				top := acc
+				if i := strings.IndexAny(top, ".["); i >= 0 {
+					top = top[:i]
+				}
+				seq = append(seq, top)
+				accSeen[top] = true
+			}
+			for i := 0; i < len(seq); i++ {
+				for j := i + 1; j < len(seq); j++ {
+					if seq[i] != seq[j] {
+						viol[[2]string{seq[j], seq[i]}] = true // seq[j] is not always before seq[i]
+					}
+				}
+			}
+		}
+		for _, node := range concrete {
+			if before[node] == nil {
+				before[node] = map[[2]string]bool{}
+			}
+			for a := range accSeen {
+				for b := range accSeen {
+					fa, fb := accField[node][a], accField[node][b]
+					if a != b && fa != "" && fb != "" && !viol[[2]string{a, b}] && viol[[2]string{b, a}] {
+						before[node][[2]string{fa, fb}] = true
+					}
+				}
+			}
+		}
+	}
+	precedes := func(a, b ssa.Value) bool {
+		ia, ok1 := a.(ssa.Instruction)
+		ib, ok2 := b.(ssa.Instruction)
+		if !ok1 || !ok2 || ia.Block() == nil || ib.Block() == nil || ia.Parent() != ib.Parent() {
+			return false
+		}
+		if ia.Block() == ib.Block() {
+			for _, x := range ia.Block().Instrs {
+				if x == ia {
+					return true
+				}
+				if x == ib {
+					return false
+				}
+			}
+		}
+		return ia.Block().Dominates(ib.Block())
+	}
+	// the call behind an Extract
+	callOf := func(v ssa.Value) ssa.Value {
+		if e, ok := v.(*ssa.Extract); ok {
+			return e.Tuple
+		}
+		return v
+	}
+	// group slots by construction
+	type site struct {
+		fn  *ssa.Function
+		key interface{}
+	}
+	groups := map[site][]SlotStore{}
+	var order []site
+	for _, s := range pf.Slots {
+		var k site
+		switch x := s.Instr.(type) {
+		case *ssa.Store:
+			fa, ok := x.Addr.(*ssa.FieldAddr)
+			if !ok {
+				continue
+			}
+			k = site{s.Fn, fa.X}
+		case *ssa.Call:
+			k = site{s.Fn, x}
+		default:
+			continue
+		}
+		if _, ok := groups[k]; !ok {
+			order = append(order, k)
+		}
+		groups[k] = append(groups[k], s)
+	}
+	n := 0
+	perKey := map[string]int{}
+	for _, k := range order {
+		g := groups[k]
+		node := g[0].Node
+		ord := before[node]
+		if len(ord) == 0 {
+			continue
+		}
+		fields := map[string]bool{}
+		for _, s := range g {
+			fields[s.Field] = true
+		}
+		if len(fields) < 2 {
+			continue
+		}
+		var bad []string
+		pairs := 0
+		for _, s1 := range g {
+			for _, s2 := range g {
+				if !ord[[2]string{s1.Field, s2.Field}] {
+					continue
+				}
+				pairs++
+				o1 := pf.origins(s1.Val, map[ssa.Value]bool{})
+				o2 := pf.origins(s2.Val, map[ssa.Value]bool{})
+				for _, a := range o1 {
+					for _, b := range o2 {
+						if a.kind != "value" || b.kind != "value" || a.val == nil || b.val == nil {
+							continue
+						}
+						ca, cb := callOf(a.val), callOf(b.val)
+						if ca == cb {
+							continue
+						}
+						if precedes(cb, ca) && !precedes(ca, cb) {
+							bad = append(bad, fmt.Sprintf("%s is evaluated before %s by the driver, but %s can hold the expression parsed at %s, after the one that reaches %s (parsed at %s)", s1.Field, s2.Field, s1.Field, w.Pos(ca.Pos()), s2.Field, w.Pos(cb.Pos())))
+						}
+					}
+				}
+			}
+		}
+		if pairs == 0 {
+			continue
+		}
+		n++
+		base := fmt.Sprintf("srcorder:%s@%s", node, FuncName(k.fn))
+		perKey[base]++
+		key := base
+		if perKey[base] > 1 {
+			key = fmt.Sprintf("%s#%d", base, perKey[base])
+		}
+		pos := w.Pos(g[0].Instr.Pos())
+		if len(bad) > 0 {
+			r.Bad(rule, key, pos, strings.Join(uniq(bad), "; ")+": operands with effects run in the wrong order")
+		} else {
+			r.Ok(rule, key, pos, "slots the driver evaluates in a fixed order hold expressions parsed in that order")
+		}
+	}
+	if n == 0 {
+		r.Bad(rule, "srcorder:none", "-", "no construction with driver-ordered slots found")
 	}
 }
